@@ -180,6 +180,12 @@ func NewWorld(cfg Config) (*World, error) {
 	switch cfg.Kind + "/" + cfg.Style {
 	case "CloneSet/partition":
 		w.WL = &cloneSetEnv{}
+	case "StatefulSet/partition":
+		w.WL = &partEnv{a: stsAdapter{}}
+	case "AdvStatefulSet/partition":
+		w.WL = &partEnv{a: astsAdapter{}}
+	case "DaemonSet/partition":
+		w.WL = &partEnv{a: dsAdapter{}}
 	default:
 		return nil, fmt.Errorf("unsupported family %s/%s", cfg.Kind, cfg.Style)
 	}
